@@ -74,7 +74,7 @@ void format_ptree::flush()
     property_tree::ptree& post_tree(t.put("postings", ""));
     foreach (const post_t * post, xact->posts)
       if (post->has_xdata() &&
-          post->xdata().has_flags(POST_EXT_VISITED))
+          post->xdata().has_flags(POST_EXT_DISPLAYED))
         put_post(post_tree.add("posting", ""), *post);
   }
 
@@ -98,6 +98,11 @@ void format_ptree::operator()(post_t& post)
     transactions_set.insert(post.xact);
   if (result.second)            // we haven't seen this transaction before
     transactions.push_back(post.xact);
+
+  // Only the postings that reach this handler are reported: a posting that was
+  // calculated (POST_EXT_VISITED) but removed by the display filter
+  // (--display) is not part of the report.
+  post.xdata().add_flags(POST_EXT_DISPLAYED);
 }
 
 } // namespace ledger
